@@ -15,44 +15,44 @@ import (
 	"golang.org/x/telemetry/internal/verifh/shim/vatomic"
 )
 
-type VerifMapped struct{ m *mappedFile }
+type VerifHandle struct{ m *mappedFile }
 
-func VerifOpenMapped(name, meta string) (*VerifMapped, error) {
+func VerifOpenHandle(name, meta string) (*VerifHandle, error) {
 	m, err := openMapped(name, meta)
 	if err != nil {
 		return nil, err
 	}
-	return &VerifMapped{m}, nil
+	return &VerifHandle{m}, nil
 }
 
 // NewCounter is mappedFile.newCounter.
-func (v *VerifMapped) NewCounter(name string) (*vatomic.Uint64, *VerifMapped, error) {
+func (v *VerifHandle) NewCounter(name string) (*vatomic.Uint64, *VerifHandle, error) {
 	c, m1, err := v.m.newCounter(name)
-	var v1 *VerifMapped
+	var v1 *VerifHandle
 	if m1 != nil {
-		v1 = &VerifMapped{m1}
+		v1 = &VerifHandle{m1}
 	}
 	return c, v1, err
 }
 
 // Lookup is mappedFile.lookup.
-func (v *VerifMapped) Lookup(name string) (*vatomic.Uint64, bool) {
+func (v *VerifHandle) Lookup(name string) (*vatomic.Uint64, bool) {
 	c, _, _, ok := v.m.lookup(name)
 	return c, ok
 }
 
-func (v *VerifMapped) Len() int       { return len(v.m.mapping.Data) }
-func (v *VerifMapped) HdrLen() uint32 { return v.m.hdrLen }
-func (v *VerifMapped) Base() uintptr  { return uintptr(unsafe.Pointer(&v.m.mapping.Data[0])) }
-func (v *VerifMapped) Close()         { v.m.close() }
+func (v *VerifHandle) Len() int       { return len(v.m.mapping.Data) }
+func (v *VerifHandle) HdrLen() uint32 { return v.m.hdrLen }
+func (v *VerifHandle) Base() uintptr  { return uintptr(unsafe.Pointer(&v.m.mapping.Data[0])) }
+func (v *VerifHandle) Close()         { v.m.close() }
 
 // VerifCellAdd is Counter.add on a cell of the mapping.
-func VerifCellAdd(v *VerifMapped, cell *vatomic.Uint64, n uint64) uint64 {
+func VerifCellAdd(v *VerifHandle, cell *vatomic.Uint64, n uint64) uint64 {
 	c := &Counter{ptr: counterPtr{v.m, cell}}
 	return c.add(n)
 }
 
-func VerifHash(name string) uint32 { return hash(name) }
+func VerifNameHash(name string) uint32 { return hash(name) }
 
 // VerifErrClass: small enum for the wire format.
 func VerifErrClass(err error) string {
@@ -63,6 +63,8 @@ func VerifErrClass(err error) string {
 		return "corrupt"
 	case err.Error() == "counter name too long":
 		return "toolong"
+	case err.Error() == "counter name empty":
+		return "empty"
 	}
 	return "other"
 }
